@@ -33,12 +33,17 @@ def read_loop_result(prog, v):
     return {k: v.fields[i] for i, k in enumerate(d['fields'])}
 
 
-def explore_process_message(prog, runtime='ActorRuntime', poll_budget=1, max_polls=3):
-    """returns (I, actor, results) where results = list of dict(state, kind, value, select, cbs, klass)"""
+def explore_process_message(prog, runtime='ActorRuntime', poll_budget=1, max_polls=3, loop_status=None):
+    """returns (I, actor, results) where results = list of dict(state, kind, value, select, cbs, klass); loop_status = (lo, hi): the actor's own status is a
+    symbolic byte in that range (default: the constant the Actor fixture starts with)"""
     I = ar.new_interp(prog, poll_budget, runtime)
     I.max_paths = 200000
     st = State()
     a = ar.Actor(prog, I, st, True, 2)
+    if loop_status is not None:
+        sv = z3.BitVec('loop_head_status', 8)
+        st.assume(z3.And(z3.UGE(sv, loop_status[0]), z3.ULE(sv, loop_status[1])))
+        st.objs['a_status'] = {'w': sv}
     refc = st.alloc(a.actor_ref)
     stc = st.alloc(Opaque('State', ident='the-state'))
     hc = st.alloc(Opaque('TActor', ident='the-handler'))
